@@ -61,7 +61,8 @@ object, dropped by the setter only: C16-seedI) violate SameResult, MemoKeyJoined
 LF / blank / none (seeded change C16-seedD) violates OutFaithful, LookupMemo=TRUE, FilesEndCounter=TRUE
 (insert position of add_files_paragraph kept as a counter: C16-seedJ; also violates ImplOrder) and
 ScanStopsAtLicense=TRUE violate FindIsLast InsertByValue=TRUE (last Files paragraph located by value: C16-seedK; also violates ImplOrder) violates FindIsLast
-(quick runs prefix, ConvMemo, FilesEndCounter, InsertByValue and MemoKeyJoined/LF).
+AffixFrom=1 (long lists answered from lookup tables, PREFIX*SUFFIX without the length condition: C16-seedN) violates
+MatchesIffGlob (quick runs prefix, ConvMemo, FilesEndCounter, InsertByValue, AffixFrom and MemoKeyJoined/LF).
 
 content-equal paragraphs (round 6).  Two Files paragraphs with the same Files text (same layout), Copyright, License and
 extra fields are still two paragraphs of the document: the statement counts paragraphs ("the last Files paragraph in the
@@ -83,6 +84,29 @@ short; p.files = / FilesParagraph.create( / globs_to_re( an iterable that raises
 What the faulted call itself does is not an observable of C16 (logged in ctx.extra["faulted_calls"], never judged); the
 model says NOTHING changed, which the following ordinary steps show: lookups on the same document, edits, a fresh parse
 of the same text in the same process (the model's Reparse step is put behind every other failed parse).
+
+number of patterns (round 7).  "all lists of 1..n patterns": TLC enumerates lists of <= 2 patterns; that the verdict of a
+list does not depend on HOW MANY patterns it has is the filler argument (2) above, and it is applied to EVERY single-pattern
+case TLC emits (patterns of <= 3 symbols, names <= 2; thorough names <= 3) and to one in 27 of the two-pattern cases: each is
+replayed once within a list of few (2..15) and once within a list of many (16..65) patterns (size_c16.COUNTS_FEW /
+COUNTS_MANY; the real patterns at a random position), everything else small.  That covers the one-star globs whose prefix
+ends like the suffix starts (a*a .*. /*/) against the names in which the two would have to OVERLAP ('a').  Recorded
+histories: patterns of that shape (w*w, uw*wv, 'cd/*/cd' in the long lists of 9..200 patterns) and names in which the text
+around a '*' overlaps or touches with one character dropped (overlap_name) are drawn in every history.  Specification:
+negative control AffixFrom = 1 of Glob.tla (lists answered from lookup tables, PREFIX*SUFFIX by startswith + endswith
+without the length condition: C16-seedN) violates MatchesIffGlob (<<a,*,a>> / a).
+
+paragraph separators (round 7).  The paragraphs of a PARSED document are separated by 1..3 lines, every mix of empty and
+whitespace-only (blanks / tabs) lines (rand_gap; key "gap" of a paragraph's layout = the lines in front of it, also in
+front of the first paragraph and of stand-alone License paragraphs): deb822 takes both kinds as paragraph ends and skips
+any number of them in front of a paragraph (Deb822._blank_line_whitespace / _initial_blank_line; Debian bug 715558), and the
+statement speaks of "the last Files paragraph in the document", so a paragraph that vanishes behind such a separator
+breaks it (seeded change C16-seedM: an empty line FOLLOWED by a whitespace-only one ends the document).  No model has a
+text level -- documents are sequences of paragraphs in Glob / GlobFind / TraceGlob -- so this is a concretization pool of
+the binding, used by every leg that parses a text the harness wrote (match / doc / size documents / find histories /
+recorded histories, every input form incl. legacy bytes and aligned file objects); texts the library dumped keep the
+library's separators.  A document that shows fewer Files paragraphs than were written is reported by the replay legs (the
+recording leg alone would only count it as a history that could not be set up).
 
 identity.  find_files_paragraph is judged by the IDENTITY of the paragraph it returns (DESIGN.md: "identity of the
 returned paragraph"): the number of the paragraph in the order the Files paragraphs came into the document (text
@@ -108,6 +132,8 @@ API surface / input forms (notes/API_SURFACE.md, notes/SIZE_STRESS.md part 4; ha
   other fields edited (copyright / license / comment setters, p['X-..'] = .., raw Copyright / License)
                                                           touch events of the trace leg (must change nothing)
   p.matches(name), p.files_pattern() (through matches)     every leg
+      on paragraphs with 1..2, 2..15 and 16..65 patterns (every single-pattern case of TLC), 1..200 sampled; recorded
+      histories with lists of 9..200 patterns, names overlapping around a '*'
   globs_to_re(list) directly, .fullmatch                   replay direct / memo, trace translate / query
   Copyright(sequence): io.StringIO, list of str lines with / without newline, tuple, generator of str / bytes lines,
       list of bytes lines, one str / one bytes, io.BytesIO, real file text / binary / unbuffered, BufferedReader and
@@ -116,6 +142,7 @@ API surface / input forms (notes/API_SURFACE.md, notes/SIZE_STRESS.md part 4; ha
                                                           replay doc / find / match (rotating sample), trace;
       with a line end exactly at / one before / one after 2^9..2^17 (padded header field, single line or folded;
       inside a Files value, between fields, at a separator, at the end): replay doc / find (ctx.extra aligned_cases)
+      paragraphs separated by 1..3 empty / whitespace-only lines in every mix (layout key "gap"): every leg that parses
   a document with CONTENT-EQUAL Files paragraphs (parsed or built), add_files_paragraph(a paragraph content-equal to one
       of the document), other fields edited until two paragraphs are equal / no longer equal
                                                           find_eq histories (MC_GlobFind_eq: addfiles / touch edges), trace
@@ -160,7 +187,7 @@ from lts import LTS, skey, strip
 
 MANIFEST = dict(
     technique="TLA+ spec (Glob: recursive glob reference + regex-translation/alternation/anchor/match-discipline implementation layer; GlobCache: per-paragraph files_pattern cache machine incl. its error path and Files rewritten through the underlying Deb822; GlobMemo: process-wide histories of direct globs_to_re calls; GlobFind: histories of one document -- Files edited, paragraphs added to parsed documents with License paragraphs in between, dump + re-parse -- content classes for copy-and-paste duplicate paragraphs, faulted calls that change nothing -- with lookups judged by paragraph identity) model-checked by TLC over all pattern lists and names up to a bound; expected results for every (pattern list, name) and (document, name) emitted by TLC and replayed into FilesParagraph.matches / parsed paragraphs / find_files_paragraph; recorded histories validated by TLC (TraceGlob)",
-    text="TLC enumerates every list of <= 2 patterns of length <= 2 over {a, *, ?, backslash, LF} against every name up to length 2 (thorough, with 'b', '/' and '.' added: 1 pattern x <= 3 with names <= 4, 2 x <= 2 with names <= 3, and 2 x <= 3 with names <= 3 over the 4 symbols a * ? backslash) and checks that the model of globs_to_re + fullmatch agrees with the recursive glob reference, that exactly the ill-formed lists raise, and that the find loop returns the last matching paragraph of every document of <= 3 paragraphs; the re.match discipline (defect fixed by ae99ec4), a non-DOTALL dot, first-match-wins and a stale cache are rejected by TLC in every run. The expected results printed by TLC are replayed on the real code through create(), text parsing with multi-line Files fields, Files re-assignment (cache) and find_files_paragraph under literal concretizations chosen to hit re.escape and flags; random Unicode histories are validated by TLC against the reference. One paragraph object is also driven through error-path histories (a query that raised the format error, further queries, Files set to a legal value and back) from the closed cache model, and lists whose joined text coincides (['a\\nb'] vs ['a','b'], blank, no separator, '|') are translated in both orders within the process from the memo model; a cache key stored before translation and a memo keyed by the joined text are rejected by TLC. Histories of one document come from the closed model GlobFind (every layout of <= 3 Files and <= 2 stand-alone License paragraphs is a parsed document the history may start from): Files rewritten through the property setter or through the Deb822 object the creator of FilesParagraph(data) kept, add_files_paragraph / add_license_paragraph, dump and parse again, with every lookup judged by the IDENTITY of the returned paragraph (followed by object identity and by a tag field that survives a dump); a memoised converted Files value, an insert position kept as a counter, a scan that stops at a License paragraph and an insert position located by the VALUE of the last Files paragraph are rejected by TLC. Documents hold content-equal (copy-and-paste) Files paragraphs, paragraphs equal to an existing one are added, and the other fields are edited until paragraphs become equal (content classes of the model GlobFind, configuration MC_GlobFind_eq): such paragraphs stay two paragraphs. Calls whose caller-supplied argument fails part-way (line iterators / file objects that raise or end early, a failing file passed to dump, pattern iterables that raise) are ordinary steps of the document histories that must change nothing. Documents reach Copyright() through every kind of line sequence and file object (text/binary/unbuffered files, short reads, gzip/bz2/lzma, spooled files, generators), a rotating sample with a line end placed exactly at / next to 2^9..2^17.",
+    text="TLC enumerates every list of <= 2 patterns of length <= 2 over {a, *, ?, backslash, LF} against every name up to length 2 (thorough, with 'b', '/' and '.' added: 1 pattern x <= 3 with names <= 4, 2 x <= 2 with names <= 3, and 2 x <= 3 with names <= 3 over the 4 symbols a * ? backslash) and checks that the model of globs_to_re + fullmatch agrees with the recursive glob reference, that exactly the ill-formed lists raise, and that the find loop returns the last matching paragraph of every document of <= 3 paragraphs; the re.match discipline (defect fixed by ae99ec4), a non-DOTALL dot, first-match-wins and a stale cache are rejected by TLC in every run. The expected results printed by TLC are replayed on the real code through create(), text parsing with multi-line Files fields, Files re-assignment (cache) and find_files_paragraph under literal concretizations chosen to hit re.escape and flags; random Unicode histories are validated by TLC against the reference. One paragraph object is also driven through error-path histories (a query that raised the format error, further queries, Files set to a legal value and back) from the closed cache model, and lists whose joined text coincides (['a\\nb'] vs ['a','b'], blank, no separator, '|') are translated in both orders within the process from the memo model; a cache key stored before translation and a memo keyed by the joined text are rejected by TLC. Histories of one document come from the closed model GlobFind (every layout of <= 3 Files and <= 2 stand-alone License paragraphs is a parsed document the history may start from): Files rewritten through the property setter or through the Deb822 object the creator of FilesParagraph(data) kept, add_files_paragraph / add_license_paragraph, dump and parse again, with every lookup judged by the IDENTITY of the returned paragraph (followed by object identity and by a tag field that survives a dump); a memoised converted Files value, an insert position kept as a counter, a scan that stops at a License paragraph and an insert position located by the VALUE of the last Files paragraph are rejected by TLC. Documents hold content-equal (copy-and-paste) Files paragraphs, paragraphs equal to an existing one are added, and the other fields are edited until paragraphs become equal (content classes of the model GlobFind, configuration MC_GlobFind_eq): such paragraphs stay two paragraphs. Calls whose caller-supplied argument fails part-way (line iterators / file objects that raise or end early, a failing file passed to dump, pattern iterables that raise) are ordinary steps of the document histories that must change nothing. Every single-pattern case is also replayed as one pattern of a list of 2..15 and of a list of 16..65 patterns (a lookup-table shortcut for long lists that tests PREFIX*SUFFIX by startswith + endswith is rejected by TLC). The paragraphs of every parsed document are separated by 1..3 empty / whitespace-only lines in every mix. Documents reach Copyright() through every kind of line sequence and file object (text/binary/unbuffered files, short reads, gzip/bz2/lzma, spooled files, generators), a rotating sample with a line end placed exactly at / next to 2^9..2^17.",
     note="Small-scope: bounds above; concretization of literal symbols is sampled (seeded). Patterns containing whitespace (LF, blanks) are only reachable through globs_to_re(list) and are judged there (globs_to_re(ps).fullmatch(name)). What a call with a faulting caller-supplied argument itself raises / returns is not judged (logged), only that the document behaves as before afterwards. Unspecified: lists with an empty pattern, the empty list, find on documents with an ill-formed paragraph (ValueError or last well-formed match), a Files paragraph whose Files field was deleted through the Deb822 handle (never done), dump + re-parse of documents with legacy-encoded lines (never done). Document order is the order in which the Files paragraphs came into the document (add_files_paragraph: behind the last Files paragraph); the position of License paragraphs is not an observable. Sizes beyond what TLC scans (patterns up to 4097+ characters, names to 64 KiB, 200 patterns, 1000 paragraphs) are reached by the block and filler arguments of harness/size_c16.py (the block argument is itself model-checked for L = 3). Trusted: TLC, the 1:1 renaming of literal code points, those two arguments, the projection (bool of matches(), identity index of the returned paragraph).",
     design="5 (C16)")
 
@@ -282,10 +309,43 @@ SEPS = [" ", " ", "  ", "\t", "\n ", "\n\t", " \n "]
 JOINERS = ["\n", "\n", " ", "", "|", ",", "\x00", "', '", "\t"]
 
 
+# lines a paragraph separator of a parsed document is made of: empty and whitespace-only (blanks / tabs) lines
+GAP_LINES = ["", "", "", " ", "  ", "\t", " \t "]
+
+
+def rand_gap(rng):
+    """the separator in front of a paragraph of a document text: 1..3 lines, every mix of empty and whitespace-only ones
+    (deb822: both end a paragraph, any number of them may follow one another)"""
+    if rng.random() < 0.35:
+        return [""]
+    return [rng.choice(GAP_LINES) for _ in range(rng.randint(1, 3))]
+
+
+def gap_text(lay):
+    return "".join(g + "\n" for g in (lay or {}).get("gap", [""]))
+
+
+def gaps_for(order, lays):
+    """separator text in front of every item of `order`: that of the paragraph's layout; in front of a stand-alone
+    License paragraph the (reversed) one of the next Files paragraph, else of the last one"""
+    out = []
+    fs = [it for it in order if it != "L"]
+    for i, it in enumerate(order):
+        if it != "L":
+            out.append(gap_text(lays[it]))
+            continue
+        nxt = [x for x in order[i + 1:] if x != "L"]
+        k = nxt[0] if nxt else (fs[-1] if fs else None)
+        g = list(reversed((lays[k] or {}).get("gap", [""]))) if k is not None else [""]
+        out.append("".join(x + "\n" for x in g))
+    return out
+
+
 def rand_seps(rng, npat, textual):
     if not textual:
         return {"first": "", "seps": [" "] * max(0, npat - 1)}
-    return {"first": rng.choice(["", "", "\n ", "\n\t"]), "seps": [rng.choice(SEPS) for _ in range(max(0, npat - 1))]}
+    return {"first": rng.choice(["", "", "\n ", "\n\t"]), "seps": [rng.choice(SEPS) for _ in range(max(0, npat - 1))],
+            "gap": rand_gap(rng)}
 
 
 # ------------------------------------------------------------------ driving the real code
@@ -342,7 +402,7 @@ def legacy_document(seed, paras, order, lays, tags):
             chunks.append(files_b + b"Copyright: 2024 Someone\nLicense: GPL-2+\nComment: " + lg + b"\n")
         else:
             chunks.append(text.encode("utf-8"))
-    data = b"\n".join(chunks)
+    data = chunks[0] + b"".join(g.encode("utf-8") + ch for g, ch in zip(gaps_for(items, lays), chunks[1:]))
     form = r.choice(["lines", "file", "whole"])
     if form == "lines":
         return [ln + b"\n" for ln in data.split(b"\n")]
@@ -410,7 +470,7 @@ def make_paragraph(pats, origin, lay, tag):
         d = next(iter(deb822.Deb822.iter_paragraphs(io.StringIO(files_para_text(pats, lay)))))
         p = C.FilesParagraph(d)
     elif origin == "borrowed":      # a paragraph object that also belongs to another, parsed document
-        other = C.Copyright(io.StringIO(HEADER + "\n" + files_para_text(pats, lay)))
+        other = C.Copyright(io.StringIO(HEADER + gap_text(lay) + files_para_text(pats, lay)))
         p = list(other.all_files_paragraphs())[0]
     else:
         raise core.MachineryError("unknown paragraph origin %r" % (origin,))
@@ -734,7 +794,8 @@ def build_doc_ex(route, paras, order, lays, tags=None):
             return Doc.parsed(C.Copyright(legacy_document(route[7:], paras, order, lays, tags)), tags)
     if route.startswith("fobj:"):
         spec = fm.parse_route(route)
-        body = "\n" + "\n".join(LICPARA if it == "L" else files_para_text(paras[it], lays[it], tags[it]) for it in order)
+        body = "".join(g + (LICPARA if it == "L" else files_para_text(paras[it], lays[it], tags[it]))
+                       for g, it in zip(gaps_for(order, lays), order))
         text, _ = fm.steer(HEADER, body, spec)
         obj, closers = fm.open_form(spec["kind"], text, SCRATCH)
         kw = {}
@@ -748,9 +809,9 @@ def build_doc_ex(route, paras, order, lays, tags=None):
             fm.close_all(closers)
     if route in TEXTUAL:
         parts = [HEADER]
-        for it in order:
-            parts.append(LICPARA if it == "L" else files_para_text(paras[it], lays[it], tags[it]))
-        text = "\n".join(parts)
+        for g, it in zip(gaps_for(order, lays), order):
+            parts.append(g + (LICPARA if it == "L" else files_para_text(paras[it], lays[it], tags[it])))
+        text = "".join(parts)
         if route == "lines":
             return Doc.parsed(C.Copyright([ln + "\n" for ln in text.split("\n")]), tags)
         if route == "bytes":
@@ -1055,8 +1116,9 @@ def run_find_path(start, path, cmap, route, lays, seed, bad=()):
 
     def shared_lay(npat):
         first, sep = {"canon": ("", " "), "nl": ("\n ", "\n "), "tab": ("", "\t")}[style]
-        return {"first": first, "seps": [sep] * max(0, npat - 1)}
+        return {"first": first, "seps": [sep] * max(0, npat - 1), "gap": shared_gap}
 
+    shared_gap = rand_gap(r)
     tags = [mark_tag(m, k + 1) for k, m in enumerate(marks)]
     if shared:
         lays = [shared_lay(len(ps)) if m else lay for ps, m, lay in zip(paras, marks, lays)]
@@ -1199,6 +1261,12 @@ def cache_key_drift(ctx, g):
 
 def rand_pattern(rng, alpha, maxlen, bad):
     out = []
+    if not bad and maxlen >= 3 and rng.random() < 0.1:
+        # PREFIX*SUFFIX where the end of the prefix is the start of the suffix ('vendor/*/vendor', 'a*a'): the two may
+        # not share characters of the name
+        w = "".join(rng.choice(alpha) for _ in range(1 if maxlen < 5 else rng.randint(1, 2)))
+        u, v = (rng.choice(alpha + [""]), rng.choice(alpha + [""])) if maxlen >= 5 else ("", "")
+        return u + w + "*" + w + v
     for _ in range(rng.randint(1, maxlen)):
         r = rng.random()
         if r < 0.22:
@@ -1236,11 +1304,39 @@ def instantiate(rng, pat, nalpha):
     return "".join(out)
 
 
+def overlap_name(rng, pat, nalpha):
+    """a name shaped like the pattern in which the text in front of a '*' and the text behind it OVERLAP (share the
+    longest run that ends the one and starts the other; one character dropped when they share nothing).  Input
+    generation only, decides nothing; None if the pattern has no '*'"""
+    stars = []
+    i = 0
+    while i < len(pat):
+        if pat[i] == "\\":
+            i += 2
+            continue
+        if pat[i] == "*":
+            stars.append(i)
+        i += 1
+    if not stars:
+        return None
+    at = rng.choice(stars)
+    pre, post = instantiate(rng, pat[:at], nalpha), instantiate(rng, pat[at + 1:], nalpha)
+    for k in range(min(len(pre), len(post)), 0, -1):
+        if pre[-k:] == post[:k]:
+            return pre + post[k:]
+    return pre + post[1:] if post else pre[:-1]
+
+
 def rand_name(rng, pats, nalpha):
     r = rng.random()
     if r < 0.1 or not pats:
         return "".join(rng.choice(nalpha) for _ in range(rng.randint(0, 6)))
-    s = instantiate(rng, rng.choice(pats), nalpha)
+    pat = rng.choice(pats)
+    if "*" in pat and rng.random() < 0.15:
+        nm = overlap_name(rng, pat, nalpha)
+        if nm is not None:
+            return nm
+    s = instantiate(rng, pat, nalpha)
     r = rng.random()
     if r < 0.45:
         return s
@@ -1285,9 +1381,14 @@ def rand_script(rng, nops, big=False):
         out = [rand_pattern(rng, alpha, rng.choice([2, 4, 6, 9] if not big else [3, 5, 7, 9]), i == b) for i in range(k)]
         if big:         # mostly hyphenated / dotted words, as in real Files fields
             for i in range(k):
-                if i != b and rng.random() < 0.6:
+                r = rng.random()
+                if i != b and r < 0.6:
                     w = ["".join(rng.choice("abcd") for _ in range(rng.randint(1, 4))) for _ in range(rng.randint(2, 3))]
                     out[i] = rng.choice(["-", "-", "."]).join(w) + rng.choice(["", "/*", "*", "?"])
+                elif i != b and r < 0.72:       # 'vendor/*/vendor': the directory name on both sides of the '*'
+                    w = "".join(rng.choice("abcd") for _ in range(rng.randint(1, 3)))
+                    j = rng.choice(["/", "/", "-", ""])
+                    out[i] = w + j + "*" + j + w
         return out
 
     many_paras = big and rng.random() < 0.25
@@ -1377,6 +1478,9 @@ def rand_script(rng, nops, big=False):
         for k, ps in enumerate(paras):
             for pat in (ps if len(ps) <= 40 else rng.sample(ps, 40)):
                 ops.append(["matches", k, instantiate(rng, pat, nalpha)])
+                nm = overlap_name(rng, pat, nalpha) if rng.random() < 0.5 else None
+                if nm is not None:      # ... and with the text around a '*' overlapping in the name
+                    ops.append(["matches", k, nm])
         nops += len(ops)
     held = None                         # list last handed to globs_to_re directly
     pending = []                        # direct translations still to be issued (other order of a colliding pair)
@@ -1690,6 +1794,9 @@ def run(ctx):
         dict(name="neg-insertbyvalue-order", module="GlobFind", expect="ImplOrder",
              cfg=cfg_text("MC_GlobFind_eq.cfg", inv=["ImplOrder"], InsertByValue="TRUE", Emit='"none"')),
     ]
+    # lists of many patterns answered from lookup tables, PREFIX*SUFFIX by startswith + endswith (C16-seedN)
+    jobs.append(dict(name="neg-affixfast", module="Glob", expect="MatchesIffGlob",
+                     cfg=cfg_text("MC_Glob_bnd_a.cfg", inv=["MatchesIffGlob"], AffixFrom="1", MaxNameLen="2")))
     if quick:       # one run: design check of the small pool and its LTS; fewer negative controls (all in thorough)
         jobs.append(dict(name="emit-memo", module="GlobMemo", cfg="MC_GlobMemo_quick.cfg", tags={"EDGE"}))
         jobs = [j for j in jobs if j["name"] not in ("neg-nodotall", "neg-findfirst", "neg-stalecache", "neg-lookupmemo",
@@ -1808,20 +1915,32 @@ def run(ctx):
                                % (pats, "" if nm is None else ".fullmatch(%r)" % cstr(cmap, nm), got, exp))
                         break
             nonempty = all(len(p) > 0 for p in ps)
+            has_qm = any(QM in p for p in ps)
+            size_jobs = []
             if nonempty and (idx % size_every == size_phase):
                 # size / character stress: the same abstract case with long blocks, many patterns, boundary lengths
                 n_size[0] += 1
-                has_qm = any(QM in p for p in ps)
                 if n_size[0] % 40 == 7 and n_huge[0] < max_huge and len(ps) <= 2:
-                    mode = "huge"
+                    size_jobs.append(("huge", None))
                     n_huge[0] += 1
                 else:
-                    mode = "fill" if n_size[0] % 2 else "block"
-                sc = sz.size_conc(rng, SIZE_LITERALS, mode, len(ps), has_qm)
-                if mode == "fill":
+                    size_jobs.append(("fill" if n_size[0] % 2 else "block", None))
+            if nonempty and (ename != "emit-match" or idx % 27 == 4):
+                # the NUMBER of patterns of the list is a dimension of its own: every single-pattern case (and a sample of
+                # the two-pattern ones) is also asked as part of a list of few (2..15) and of many (16..65) patterns
+                size_jobs += [("fill", rng.choice(sz.COUNTS_FEW)), ("fill", rng.choice(sz.COUNTS_MANY))]
+            for mode, count in size_jobs:
+                if nviol[0] >= 5:
+                    break
+                t_job = time.process_time()
+                sc = sz.size_conc(rng, SIZE_LITERALS, mode, len(ps), has_qm, count=count)
+                if mode == "fill" and count is None:
                     sz.hit_joined(rng, sc, ps)
+                if count is not None:
+                    stats["count_cases"] = stats.get("count_cases", 0) + 1
                 as_direct = not representable(ps)
-                route = rng.choice(["prog", "prog", "prog-set", "prog-set", "text", "lines", "bytes", "legacy:%d" % rng.randrange(10 ** 6)])
+                route = rng.choice(["prog", "prog", "prog-set", "prog-set", "text", "lines", "bytes", "legacy:%d" % rng.randrange(10 ** 6)]
+                                   if count is None else ["prog", "prog", "prog-set", "text"])
                 lay = rand_seps(rng, len(sc.patterns(ps)), route in TEXTUAL)
                 if sc.L > 64:
                     hit = [nm for nm in names if nm in mset]
@@ -1831,12 +1950,18 @@ def run(ctx):
                 bad = check_size_case(ps, ok, mset, sub, sc, route, lay, direct=as_direct)
                 n_pairs += len(sub)
                 stats["size_cases_" + mode] = stats.get("size_cases_" + mode, 0) + 1
+                if count is not None:
+                    stats["count_cases_cpu_s"] = round(stats.get("count_cases_cpu_s", 0) + time.process_time() - t_job, 3)
                 if bad:
                     nm, exp, got = bad
                     report({"kind": "size", "ps": [list(p) for p in ps], "ok": ok, "name": nm, "expected": exp,
                             "sc": sc.to_json(), "route": route, "lay": lay, "direct": as_direct},
                            size_report_text(sc, ps, route, nm, exp, got, as_direct))
-                    continue
+                    break
+            else:
+                size_jobs = []
+            if size_jobs:       # (left by break: reported)
+                continue
             if not representable(ps):
                 if not direct:
                     check_unrepresentable(ctx, ps, ok, mset, names, stats)
@@ -2224,7 +2349,7 @@ def run(ctx):
             ctx.drift("trace not recorded: " + why)
         else:
             traces.append(t)
-    if skipped * 20 > ntr:
+    if skipped * 20 > ntr and not nviol[0]:     # (with violations reported by the replay legs the same cause is already judged)
         raise core.MachineryError("%d of %d histories could not be set up" % (skipped, ntr))
     t_rec = time.time()
     if pipeline is not None:
